@@ -394,6 +394,7 @@ impl Property for C03 {
         v.nt(c.a.layout != c.b.layout && (order_differs || private));
         v.label_if(c.a.d1v().iter().any(|x| *x == 0.0) || c.b.d1v().iter().any(|x| *x == 0.0), "zero-padding");
         v.label_if(c.rev != 0, "memory:reversed-arrays");
+        v.label_if(c.op == BinOp::Eq && c.a.d1.iter().chain(c.b.d1.iter()).any(|x| x.0.is_infinite()), "eq:infinite-derivative");
         v.label_if(c.a.layout.len().max(c.b.layout.len()) > 16, "wide:>16-names");
         v.label_if({ let mut u = c.a.layout.clone(); u.extend(c.b.layout.iter()); u.sort(); u.dedup(); u.len() > 64 }, "wide:union>64-names");
 
@@ -535,12 +536,12 @@ impl Property for C03 {
     }
 
     fn rule(&self) -> String {
-        "enumeration: every pair of ordered subsets of a 4-name universe (65 ordered subsets, 4 225 pairs) x {own storage, shared storage when the lists are identical} x {+,-,*,/,%,==} x {Dual, Dual2}, with fixed dyadic coefficients that depend on the variable name; for == additionally pairs that are equal by name on the common support and zero elsewhere. Random: layouts over 8 names (0-5 names each, any order), coefficients with zero padding, pairs constructed equal-by-name in different layouts or differing in exactly one coefficient; in a quarter of the cases one or both operands hold their arrays in reversed memory order (negative strides, through clone_from). Wide stage: 20-70 names out of 100 per operand (unions beyond 64 and 16-name boundaries), b independent or a's content with two names swapped / extended / one coefficient changed. The name pool contains two pairs that differ in letter case only. Oracle: independent by-name formulas per operator, invariance against the same operands on one shared sorted list, result variables == set union (each once) with matching array shapes, == <=> equal by name with missing == 0. Non-trivial: layouts neither identical nor value-equal and (a shared name in a different relative order or a name private to one side).".into()
+        "enumeration: every pair of ordered subsets of a 4-name universe (65 ordered subsets, 4 225 pairs) x {own storage, shared storage when the lists are identical} x {+,-,*,/,%,==} x {Dual, Dual2}, with fixed dyadic coefficients that depend on the variable name; for == additionally pairs that are equal by name on the common support and zero elsewhere. Random: layouts over 8 names (0-5 names each, any order), coefficients with zero padding, pairs constructed equal-by-name in different layouts or differing in exactly one coefficient; in a quarter of the cases one or both operands hold their arrays in reversed memory order (negative strides, through clone_from). Wide stage: 20-70 names out of 100 per operand (unions beyond 64 and 16-name boundaries), b independent or a's content with two names swapped / extended / one coefficient changed. Half of the equal-by-name equality pairs carry an infinite first derivative (as sqrt at 0 produces) under the same name on both sides. The name pool contains two pairs that differ in letter case only. Oracle: independent by-name formulas per operator, invariance against the same operands on one shared sorted list, result variables == set union (each once) with matching array shapes, == <=> equal by name with missing == 0. Non-trivial: layouts neither identical nor value-equal and (a shared name in a different relative order or a name private to one side).".into()
     }
 
     fn floors(&self, tier: Tier) -> Vec<Floor> {
         let m = tier.pick(2000u64, 20000);
-        ["layouts:arc-shared", "layouts:value-equal", "layouts:same-set-other-order", "layouts:superset", "layouts:subset", "layouts:disjoint", "layouts:equal-length-overlap", "layouts:one-empty", "eq:true", "eq:false", "zero-padding", "memory:reversed-arrays", "wide:>16-names"]
+        ["layouts:arc-shared", "layouts:value-equal", "layouts:same-set-other-order", "layouts:superset", "layouts:subset", "layouts:disjoint", "layouts:equal-length-overlap", "layouts:one-empty", "eq:true", "eq:false", "zero-padding", "memory:reversed-arrays", "wide:>16-names", "eq:infinite-derivative"]
             .iter()
             .map(|l| Floor { label: l, min: m })
             .collect()
@@ -657,6 +658,11 @@ fn case_strategy() -> impl Strategy<Value = Case> {
             }
             Operand { real: a.real, layout, d1: d1.into_iter().map(Fl).collect(), d2 }
         };
+        let relate_kind: u8 = match &relate {
+            Relate::Independent => 0,
+            Relate::Permuted(_, inf) => if *inf { 1 } else { 2 },
+            Relate::OneOff(..) => 3,
+        };
         match relate {
             Relate::Independent => {}
             Relate::Permuted(extra, _) => b = re_express(&a, &extra),
@@ -673,6 +679,20 @@ fn case_strategy() -> impl Strategy<Value = Case> {
                 } else {
                     b.real = Fl(b.real.0 + 1.0);
                 }
+            }
+        }
+        // equality of numbers that carry an INFINITE derivative (sqrt at 0): equal by name must
+        // still mean equal, whatever the layouts (inf - inf is NaN, so "a - b is zero" is not a
+        // definition of equality)
+        let (mut a, mut b) = (a, b);
+        if op == BinOp::Eq && rev & 4 == 0 && matches!(relate_kind, 1) && !a.d1.is_empty() && !a.layout.is_empty() {
+            let name = a.layout[0];
+            a.d1[0] = Fl(f64::INFINITY);
+            if let Some(p) = b.layout.iter().position(|n| *n == name) {
+                while b.d1.len() <= p {
+                    b.d1.push(Fl(0.0));
+                }
+                b.d1[p] = Fl(f64::INFINITY);
             }
         }
         Case { second_order, a, b, share, op, rev }
